@@ -450,7 +450,7 @@ class HistogramND(HistogramBase):
         # TODO: document
         name = kwargs.pop("name", self.name)
         axis_names = [name for i, name in enumerate(self.axis_names) if i in axes]
-        bins = [bins for i, bins in enumerate(self._binnings) if i in axes]
+        bins = [bins.copy() for i, bins in enumerate(self._binnings) if i in axes]
         if len(axes) == 1:
             from physt.histogram1d import Histogram1D
 
